@@ -165,11 +165,19 @@ class Runs:
             for i in range(nl):
                 a[i]['name'], b[i]['name'] = pa[i], pb[i]
             tests_b = [{'layer': j} for j in rng.sample(range(nl), rng.randint(2, nl))]
+            tests_b += [{'layer': T['layer']} for T in list(tests_b) for _ in range(rng.randint(0, 3))]     # layers of different sizes
+            resumed_seq = False
+            if k % 3 == 2:
+                # no layer can be torn down: after the first one the others are resumed in subprocesses, one after the other
+                for L in b:
+                    L['hooks']['tearDown'] = ['notimpl']
+                tests_b = [{'layer': j} for j in range(nl) for _ in range(rng.randint(1, 4))]      # every layer owns tests, of different numbers
+                resumed_seq = True
             tests_a = [{'layer': j} for j in range(nl)]
             cases.append({'module': 'vcten_%d_%d' % (k, rng.randint(0, 10 ** 6)),
                           'a': {'layers': a, 'tests': tests_a, 'options': []},
                           # half of the observed runs spread the layers over subprocesses: one group per layer there as well
-                          'b': {'layers': b, 'tests': tests_b, 'options': rng.choice([[], ['-j2']])}})
+                          'b': {'layers': b, 'tests': tests_b, 'options': [] if resumed_seq else rng.choice([[], ['-j2']])}})
             rep.count('runs layers=%d' % nl)
         return cases
 
@@ -182,6 +190,16 @@ class Runs:
             warm = worldrun.run_world(dict(c['b'], module=c['module'], warmup_world=c['a']), idx=2 * i + 1)
 
             def order(o):
+                if not any(x.startswith('-j') for x in c['b']['options']):
+                    # without -j the processes of a run work one after the other: the order in which the layers' tests were
+                    # actually executed is the order of first appearance in the (append-only) trace
+                    seen = []
+                    for r in o.get('trace', []):
+                        if r[1] == 't_setUp' and r[2] < len(c['b']['tests']):
+                            L = c['b']['tests'][r[2]]['layer']
+                            if L not in seen:
+                                seen.append(L)
+                    return seen
                 names = worldrun.parse_stdout(o.get('stdout', ''))['running']
                 idx = {'%s.%s' % (c['module'], L['name']): j for j, L in enumerate(c['b']['layers'])}
                 # (the unit-test layer and the placeholder layer of -j runs are not layers of the world)
